@@ -981,6 +981,8 @@ static void string_initializer(Token **rest, Token *tok, Initializer *init) {
 // The above initializer sets x.c to 5.
 static void array_designator(Token **rest, Token *tok, Type *ty, int *begin, int *end) {
   *begin = const_expr(&tok, tok->next);
+  if (*begin < 0)
+    error_tok(tok, "array designator index is negative");
   if (*begin >= ty->array_len)
     error_tok(tok, "array designator index exceeds array bounds");
 
